@@ -28,16 +28,12 @@ package crypto
 //@ -- (*CosiSignature).aggregatePublicKey returns on success). Reads the pointer block of publics and the key bytes.
 //@ uninterp AggKey(publics []*Key, mask uint64) Key reads byte, publics[..]
 
-//@ -- DecodableSeq(s): the byte string s decodes to a prime-order point in canonical encoding (what decodePoint accepts)
-//@ uninterp DecodableSeq(s mathint) bool
+//@ -- DecodableSeq(s): the 32-byte string s decodes to a non-identity prime-order point in canonical encoding: what decodePoint
+//@ -- accepts for a key (ValidPointBytes: zz_contracts_c32_verif.go, over the C32 group vocabulary of trusted/c32.spec)
+//@ spec DecodableSeq(s mathint) bool = ValidPointBytes(s)
 
-//@ -- decodePoint: success returns a usable point. It only writes the package-private decode cache (decodedPoints), which
-//@ -- no contract mentions and which is semantically transparent (a cache of a deterministic function).
-//@ assume func decodePoint
-//@   modifies nothing
-//@   ensures err == nil <==> DecodableSeq(seq(src))
-//@   ensures err == nil ==> result0 != nil && *result0 == PDecode(seq(src))
-//@   ensures err != nil ==> result0 == nil
+//@ -- decodePoint: VERIFIED contract in zz_contracts_c32_verif.go (err == nil <==> len(src) == 32 && ValidPointBytes(seq(src));
+//@ -- success returns a fresh point equal to PointOf(seq(src)); its decode cache is assumed coherent there).
 
 //@ -- VerifyWithChallenge: undecodable key / R, non-canonical s are reported as false; otherwise the group equation.
 //@ assume func (publicKey *Key) VerifyWithChallenge
